@@ -492,6 +492,9 @@ func (m *packMachine) packErr(what string, err error) *vf.Verdict {
 	if m.nDatagrams == 0 {
 		// "A configuration that cannot achieve this is rejected with an error before anything is sent."
 		m.cls["rejected-before-send"] = true
+		if os.Getenv("C09_PACK_DEBUG") == "2" {
+			fmt.Printf("REJECT %s max=%d: %s\n", m.kind, m.p.MaxSize, err)
+		}
 		return nil
 	}
 	if m.exBuild && strings.Contains(err.Error(), "does not fit the packet buffer") {
